@@ -87,7 +87,9 @@ pub fn gen(prop: &str, seed: u64, tier: u32) -> Vec<String> {
                     let mut y = 0; while y <= max { out.push(format!("dec {} {} {} {} {} {} {} {}", ts, m, p, full, bd, y, mid, mid)); y += step; }
                     out.push(format!("dec {} {} {} {} {} {} {} {}", ts, m, p, full, bd, max, mid, mid));
                 } else {
-                    for c in codes_for(&mut r, bd, full == 1, 100 * scale) { out.push(format!("{} {} {} {} {} {} {} {} {}", op, ts, m, p, full, bd, c[0], c[1], c[2])); }
+                    // a standard matrix must ignore the primaries (and the transfer): vary the primaries tag over all 14 values
+                    let pn = CPS[r.below(14) as usize].0;
+                    for c in codes_for(&mut r, bd, full == 1, 100 * scale) { out.push(format!("{} {} {} {} {} {} {} {} {}", op, ts, m, pn, full, bd, c[0], c[1], c[2])); }
                 }
             });
             if prop == "C16" {
@@ -312,7 +314,15 @@ fn geometry_stream(r: &mut Rng, prop: &str, tier: u32, out: &mut Vec<String>) {
         let v = if wellformed || r.below(2) == 0 { u.clone() } else { plane_n(cw + r.below(2), ch, cxd, cyd, cxp, cyp) };
         // one out-of-range sample now and then (16-bit storage below 16 bit): poke a buffer index
         let mut fill = format!("fill {} {}", r.below(1 << 30), maxcode);
-        if ts == 2 && bd < 16 && r.below(3) == 0 { fill.push_str(&format!(" poke {} {} {}", r.below(3), r.below(4000), maxcode + 1 + r.below(60000 - maxcode.min(59999)))); }
+        if ts == 2 && bd < 16 && r.below(3) == 0 {
+            // boundary values first: 2^n itself, 2^n+1, the type maximum, then anything above
+            let val = match r.below(4) { 0 => maxcode + 1, 1 => maxcode + 2, 2 => 65535, _ => maxcode + 1 + r.below(65535 - maxcode) };
+            // aim at a visible sample most of the time (Plane::new: stride and xorigin are multiples of 32 samples for u16)
+            let (pi, pw, ph, xp, yp) = match r.below(3) { 0 => (0, w, h, lxp, lyp), k => (k, cw, ch, cxp, cyp) };
+            let al = |x: u64| (x + 31) / 32 * 32;
+            let idx = if r.below(4) != 0 && pw > 0 && ph > 0 { (yp + r.below(ph)) * al(al(xp) + pw + xp) + al(xp) + r.below(pw) } else { r.below(4000) };
+            fill.push_str(&format!(" poke {} {} {}", pi, idx, val));
+        }
         let line = format!("{} | {} | {} | {} | {}", head, y, u, v, fill);
         if prop == "C12" || prop == "C07" { out.push(format!("ynew {}", line)); }
         if prop != "C12" { out.push(format!("ydec {}", line)); }
